@@ -15,6 +15,11 @@ static constexpr std::size_t MAX_BUFF_SIZE = 65536;
 
 void CDNS::GzipCborOutputWriter::write(const char* p, std::size_t size)
 {
+    if (m_start_stream) {
+        m_start_stream = false;
+        open();
+    }
+
     // The stream couldn't be finished (it was reported), data is dropped until the output is rotated
     if (!m_gzip.state)
         return;
@@ -89,6 +94,11 @@ int CDNS::GzipCborOutputWriter::write_gzip(std::size_t in_size, int action)
 
 void CDNS::XzCborOutputWriter::write(const char* p, std::size_t size)
 {
+    if (m_start_stream) {
+        m_start_stream = false;
+        open();
+    }
+
     // The stream couldn't be finished (it was reported), data is dropped until the output is rotated
     if (!m_lzma.internal)
         return;
